@@ -1,11 +1,11 @@
 (* What the two text serde deserializers (src/text/de.rs) and the specification have in common:
 
-   prim        the primitive visit a jomini text deserializer issues (visit_bool / visit_i64 / visit_u64 /
+   tprim        the primitive visit a jomini text deserializer issues (visit_bool / visit_i64 / visit_u64 /
                visit_f64 / visit_str|visit_string|visit_borrowed_str / visit_borrowed_bytes / visit_unit;
                the text deserializers never issue i32/u32/f32 visits)
-   hint        which `deserialize_*` method the visitor side calls; [hint_of] = what the runtime-shape
+   thint        which `deserialize_*` method the visitor side calls; [thint_of] = what the runtime-shape
                interpreter of the harness (fam_de.rs `Seed::deserialize`) calls for each shape
-   visit_prim  the VISITOR side for a primitive visit: serde's own visitors for String / bool / uN / iN /
+   tvisit_prim  the VISITOR side for a primitive visit: serde's own visitors for String / bool / uN / iN /
                f32 / f64 / IgnoredAny, jomini's DateVisitor / DateHourVisitor, and the harness's OptV / AnyV
                (trusted library behaviour, exercised by the correspondence runs)
    scalar_prim the typed hints of BOTH text deserializers on a scalar: parse with Scalar.to_bool / to_i64 /
@@ -13,106 +13,68 @@
    entry       one (key, value) step of a visit_map loop for the four map visitors that exist: MapV
                (ShMap), StructV (ShStruct), AnyV (ShAny), and the serde-derived visitor of
                jomini::text::Property<T> (ShProp); generic in how the value is deserialized, so that the
-               tape walk, the stream walk and the specification share it.
-   Floats are kept abstract ([fops]): the IEEE parsing and casts are parameters (instantiated in the
-   OCaml glue with ScalarF64.to_f64_bits and the machine casts); the theorems hold for every choice. *)
+               tape twalk, the stream twalk and the specification share it.
+   Floats are kept abstract: Scalar::to_f64 ([parse_f64], bits) and the casts of serde's float visitors
+   (SerdeShape.fops) are parameters, instantiated in the OCaml glue with ScalarF64.to_f64_bits and
+   the machine casts; the theorems hold for every choice.
+   Shapes, values, error classes and the primitive visitors are SerdeShape's (shared with the binary
+   walks); the T-prefixed names are the text-specific refinements. *)
 From JV Require Import Bytes Utf8 Scalar Date TextTok SerdeShape.
 Open Scope N_scope.
 
-Definition E_DE : N := 1.        (* serde::de::Error::custom / invalid_type / invalid_length, DeserializeErrorKind::Unsupported *)
-Definition E_IO : N := 3.
-Definition E_EOF : N := 4.
-Definition E_SYNTAX : N := 5.    (* ErrorKind::InvalidSyntax *)
-Definition E_FULL : N := 6.
-Definition E_DUP : N := 101.     (* duplicate_field (= Derive.E_DUP) *)
-Definition E_MISSING : N := 102. (* missing_field  (= Derive.E_MISSING) *)
+Inductive tprim :=
+| TPBool (b : bool)
+| TPI64 (z : Z)
+| TPU64 (n : N)
+| TPF64 (bits : N)
+| TPStr (borrowed : bool) (s : bytes)    (* borrowed = visit_borrowed_str; otherwise visit_str / visit_string *)
+| TPBytes (s : bytes)
+| TPUnit.
 
-Inductive prim :=
-| PBool (b : bool)
-| PI64 (z : Z)
-| PU64 (n : N)
-| PF64 (bits : N)
-| PStr (borrowed : bool) (s : bytes)    (* borrowed = visit_borrowed_str; otherwise visit_str / visit_string *)
-| PBytes (s : bytes)
-| PUnit.
+Inductive thint :=
+| THAny | THBool | THI64 | THU64 | THF64
+| THStr            (* deserialize_str / identifier (tape: also char) *)
+| THString
+| THBytes          (* bytes / byte_buf *)
+| THOption | THUnit (* unit / unit_struct *) | THNewtype
+| THSeq            (* seq / tuple / tuple_struct *)
+| THMap
+| THStruct (prop : bool)   (* deserialize_struct; prop = the name is "_internal_jomini_property" *)
+| THEnum | THIgnored.
 
-Inductive hint :=
-| HAny | HBool | HI64 | HU64 | HF64
-| HStr            (* deserialize_str / identifier (tape: also char) *)
-| HString
-| HBytes          (* bytes / byte_buf *)
-| HOption | HUnit (* unit / unit_struct *) | HNewtype
-| HSeq            (* seq / tuple / tuple_struct *)
-| HMap
-| HStruct (prop : bool)   (* deserialize_struct; prop = the name is "_internal_jomini_property" *)
-| HEnum | HIgnored.
-
-Definition hint_of (sh : shape) : hint :=
+Definition thint_of (sh : shape) : thint :=
   match sh with
-  | ShStr => HString
-  | ShBool => HBool
-  | ShU _ => HU64
-  | ShI _ => HI64
-  | ShF32 | ShF64 => HF64
-  | ShDate | ShDateHour => HAny
-  | ShOpt _ => HOption
-  | ShSeq _ | ShTup _ => HSeq
-  | ShMap _ => HMap
-  | ShStruct _ _ => HStruct false
-  | ShProp _ => HStruct true
-  | ShEnum _ => HEnum
-  | ShAny => HAny
-  | ShIgn => HIgnored
+  | ShStr => THString
+  | ShBool => THBool
+  | ShU _ => THU64
+  | ShI _ => THI64
+  | ShF32 | ShF64 => THF64
+  | ShDate | ShDateHour => THAny
+  | ShOpt _ => THOption
+  | ShSeq _ | ShTup _ => THSeq
+  | ShMap _ => THMap
+  | ShStruct _ _ => THStruct false
+  | ShProp _ => THStruct true
+  | ShEnum _ => THEnum
+  | ShAny => THAny
+  | ShIgn => THIgnored
   end.
 
-Record fops := mkfops {
-  fo_parse : bytes -> outcome N;   (* Scalar::to_f64, as bits *)
-  fo_f64_f32 : N -> N;             (* `v as f32` of an f64, bits to bits *)
-  fo_z_f64 : Z -> N;               (* `v as f64` of an i64/u64 *)
-  fo_z_f32 : Z -> N }.             (* `v as f32` of an i64/u64 *)
-
-Definition date_val (hour : bool) (r : outcome (option rawdate)) : outcome dval :=
-  match r with
-  | Ok (Some d) => Ok (DDate (ry d) (Z.to_N (raw_month d)) (Z.to_N (raw_day d)) (if hour then Z.to_N (raw_hour d) else 0))
-  | Ok None => Err E_DE
-  | Err _ => Err E_DE
-  | Panic s => Panic s
-  | OOB s => OOB s
-  | OutOfFuel => OutOfFuel
+(* the visitor side is the one shared with the binary walks (SerdeShape.visit_prim): the text
+   deserializers only issue bool / i64 / u64 / f64 / str / bytes / unit visits; borrowed-ness is
+   invisible to every visitor except Operator's *)
+Definition sprim (p : tprim) : prim :=
+  match p with
+  | TPBool b => PBool b
+  | TPI64 z => PI64 z
+  | TPU64 n => PU n
+  | TPF64 b => PF64 b
+  | TPStr _ s => PStr s
+  | TPBytes s => PBytes s
+  | TPUnit => PUnit
   end.
 
-Section Visit.
-  Variable fo : fops.
-
-  Definition visit_prim (sh : shape) (p : prim) : outcome dval :=
-    match sh, p with
-    | ShIgn, _ => Ok DIgn
-    | ShAny, PBool b => Ok (DBool b)
-    | ShAny, PI64 z => Ok (DI z)
-    | ShAny, PU64 n => Ok (DU n)
-    | ShAny, PF64 b => Ok (DF64 b)
-    | ShAny, PStr _ s => Ok (DStr s)
-    | ShAny, PBytes s => Ok (DBytes s)
-    | ShAny, PUnit => Ok DUnit
-    | ShStr, PStr _ s => Ok (DStr s)
-    | ShStr, PBytes s => if valid_utf8 s then Ok (DStr s) else Err E_DE
-    | ShBool, PBool b => Ok (DBool b)
-    | ShU bits, PU64 n => if n <? 2 ^ bits then Ok (DU n) else Err E_DE
-    | ShU bits, PI64 z => if (0 <=? z)%Z && (Z.to_N z <? 2 ^ bits) then Ok (DU (Z.to_N z)) else Err E_DE
-    | ShI bits, PI64 z => if ((- Z.of_N (2 ^ (bits - 1)) <=? z) && (z <? Z.of_N (2 ^ (bits - 1))))%Z then Ok (DI z) else Err E_DE
-    | ShI bits, PU64 n => if n <? 2 ^ (bits - 1) then Ok (DI (Z.of_N n)) else Err E_DE
-    | ShF64, PF64 b => Ok (DF64 b)
-    | ShF64, PI64 z => Ok (DF64 (fo_z_f64 fo z))
-    | ShF64, PU64 n => Ok (DF64 (fo_z_f64 fo (Z.of_N n)))
-    | ShF32, PF64 b => Ok (DF32 (fo_f64_f32 fo b))
-    | ShF32, PI64 z => Ok (DF32 (fo_z_f32 fo z))
-    | ShF32, PU64 n => Ok (DF32 (fo_z_f32 fo (Z.of_N n)))
-    | ShDate, PStr _ s => date_val false (date_parse s)
-    | ShDateHour, PStr _ s => date_val true (datehour_parse s)
-    | ShOpt _, PUnit => Ok DNone
-    | _, _ => Err E_DE
-    end.
-End Visit.
+Definition tvisit_prim (F : fops) (sh : shape) (p : tprim) : outcome dval := visit_prim F sh (sprim p).
 
 (* Operator::deserialize's visitor: only visit_borrowed_str of a known symbol *)
 Definition op_of_symbol (s : bytes) : option operator :=
@@ -121,38 +83,34 @@ Definition op_of_symbol (s : bytes) : option operator :=
   else if beqb s [61; 61] then Some Exact else if beqb s [61] then Some Equal
   else if beqb s [33; 61] then Some NotEqual else if beqb s [63; 61] then Some Exists else None.
 
-Definition visit_operator (p : prim) : outcome N :=
+Definition visit_operator (p : tprim) : outcome N :=
   match p with
-  | PStr true s => match op_of_symbol s with Some o => Ok (op_code o) | None => Err E_DE end
-  | _ => Err E_DE
+  | TPStr true s => match op_of_symbol s with Some o => Ok (op_code o) | None => Err EC_DE end
+  | _ => Err EC_DE
   end.
 
 (* VariantSeed.visit_str *)
-Definition visit_variant (names : list bytes) (p : prim) : outcome dval :=
-  match p with
-  | PStr _ s => if existsb (beqb s) names then Ok (DEnum s) else Err E_DE
-  | _ => Err E_DE
-  end.
+Definition tvisit_variant (names : list bytes) (p : tprim) : outcome dval := visit_variant names (sprim p).
 
 Section Scalar.
   Variable decode : bytes -> cow.
-  Variable fo : fops.
+  Variable parse_f64 : bytes -> outcome N.     (* Scalar::to_f64, as bits *)
 
-  Definition pstr (c : cow) : prim := PStr (is_borrowed c) (cow_bytes c).
+  Definition pstr (c : cow) : tprim := TPStr (is_borrowed c) (cow_bytes c).
 
   (* the typed hints on a scalar (both deserializers; they differ in the borrowed flag only:
      [tape] = the tape path's visit_str! macro, otherwise every str visit is visit_str/visit_string) *)
-  Definition scalar_prim (tape : bool) (h : hint) (raw : bytes) : prim :=
+  Definition scalar_prim (tape : bool) (h : thint) (raw : bytes) : tprim :=
     let c := decode raw in
-    let any := PStr (tape && is_borrowed c) (cow_bytes c) in
+    let any := TPStr (tape && is_borrowed c) (cow_bytes c) in
     match h with
-    | HBool => match to_bool raw with Ok b => PBool b | _ => any end
-    | HI64 => match to_i64 raw with Ok z => PI64 z | _ => any end
-    | HU64 => match to_u64 raw with Ok n => PU64 n | _ => any end
-    | HF64 => match fo_parse fo raw with Ok b => PF64 b | _ => any end
-    | HString => PStr false (cow_bytes c)
-    | HBytes => PBytes raw
-    | HUnit | HIgnored => PUnit
+    | THBool => match to_bool raw with Ok b => TPBool b | _ => any end
+    | THI64 => match to_i64 raw with Ok z => TPI64 z | _ => any end
+    | THU64 => match to_u64 raw with Ok n => TPU64 n | _ => any end
+    | THF64 => match parse_f64 raw with Ok b => TPF64 b | _ => any end
+    | THString => TPStr false (cow_bytes c)
+    | THBytes => TPBytes raw
+    | THUnit | THIgnored => TPUnit
     | _ => any
     end.
 End Scalar.
@@ -207,7 +165,7 @@ Section Entry.
   Variable rec : shape -> X -> S -> outcome (dval * S).     (* next_value_seed(Seed sh) *)
   Variable rec_op : X -> S -> outcome (N * S).               (* next_value::<Operator>() *)
 
-  (* kb = the decoded key string that the key visitor receives; knum = a u16 hint would see visit_u64 *)
+  (* kb = the decoded key string that the key visitor receives; knum = a u16 thint would see visit_u64 *)
   Definition entry (m : wmode) (a : acc) (kb : bytes) (knum : bool) (x : X) (s : S) : outcome (acc * S) :=
     match m with
     | WMap sh =>
@@ -217,25 +175,25 @@ Section Entry.
         do (v, s') <- rec ShAny x s;
         Ok (mkacc (a_map a) ((DStr kb, v) :: a_amap a) (a_slots a), s')
     | WStruct token fs =>
-        if token && knum then Err E_DE            (* FieldSeed has no visit_u64 *)
+        if token && knum then Err EC_DE            (* FieldSeed has no visit_u64 *)
         else
           match find_name fs kb 0 with
           | None => do (_, s') <- rec ShIgn x s; Ok (a, s')     (* next_value::<IgnoredAny>() *)
           | Some (i, f) =>
               match f_mode f with
-              | Once =>
-                  if slot_full a i then Err E_DUP
+              | MOnce =>
+                  if slot_full a i then Err EC_DUP
                   else do (v, s') <- rec (f_shape f) x s; Ok (slot_set a i v, s')
-              | Last => do (v, s') <- rec (f_shape f) x s; Ok (slot_set a i v, s')
-              | Collect => do (v, s') <- rec (f_shape f) x s; Ok (slot_push a i v, s')
+              | MLast => do (v, s') <- rec (f_shape f) x s; Ok (slot_set a i v, s')
+              | MCollect => do (v, s') <- rec (f_shape f) x s; Ok (slot_push a i v, s')
               end
           end
     | WProp sh =>
         if beqb kb STR_OPERATOR then
-          if slot_full a 0 then Err E_DUP
+          if slot_full a 0 then Err EC_DUP
           else do (o, s') <- rec_op x s; Ok (slot_set a 0 (DU o), s')
         else if beqb kb STR_VALUE then
-          if slot_full a 1 then Err E_DUP
+          if slot_full a 1 then Err EC_DUP
           else do (v, s') <- rec sh x s; Ok (slot_set a 1 v, s')
         else do (_, s') <- rec ShIgn x s; Ok (a, s')
     end.
@@ -249,9 +207,9 @@ Fixpoint finish_fields (fs : list field) (sl : list (option dval * list dval)) :
   | [], _ => Ok []
   | f :: fs', s :: sl' =>
       do v <- match f_mode f, s with
-              | Collect, (_, c) => Ok (DSeq (rev c))
+              | MCollect, (_, c) => Ok (DSeq (rev c))
               | _, (Some v, _) => Ok v
-              | _, (None, _) => if is_opt (f_shape f) then Ok DNone else Err E_MISSING
+              | _, (None, _) => if is_opt (f_shape f) then Ok DNone else Err EC_MISSING
               end;
       do r <- finish_fields fs' sl';
       Ok ((f_name f, v) :: r)
@@ -270,9 +228,9 @@ Definition finish (m : wmode) (a : acc) : outcome dval :=
           | Some (DU op) =>
               match v with
               | Some v => Ok (DProp op v)
-              | None => if is_opt sh then Ok (DProp op DNone) else Err E_MISSING
+              | None => if is_opt sh then Ok (DProp op DNone) else Err EC_MISSING
               end
-          | _ => Err E_MISSING
+          | _ => Err EC_MISSING
           end
       | _ => Panic 9002
       end
@@ -287,3 +245,13 @@ Definition wmode_of (sh : shape) : option wmode :=
   | ShProp s => Some (WProp s)
   | _ => None
   end.
+
+(* default fuel of both walks: every recursive call descends in the tape / token list or in the shape *)
+Fixpoint shape_size (sh : shape) : nat :=
+  match sh with
+  | ShOpt s | ShSeq s | ShMap s | ShProp s => S (shape_size s)
+  | ShTup ss => S (fold_right (fun s n => (shape_size s + n)%nat) 0%nat ss)
+  | ShStruct _ fs => S (fold_right (fun f n => (shape_size (snd f) + n)%nat) 0%nat fs)
+  | _ => 1%nat
+  end.
+
